@@ -26,7 +26,8 @@ Print Assumptions C14_strategy_is_concurrent.
    "return-value"/"stdout"/"stderr" fed from Wait's exit code and the two captures;
    waitErrToExitCode = -1 by default, 0 for nil, ExitStatus() for an ExitError; RunCommand sets no
    other field of the exec.Cmd (WaitDelay, Cancel, Env, ...: the model knows none); InTotoRun hands
-   its cmdArgs to nothing but the len() guard and RunCommand(cmdArgs, runDir) *)
+   its cmdArgs to nothing but the len() guard and RunCommand(cmdArgs, runDir), and the map it gets
+   back is only declared, assigned and stored in the link (never rewritten, e.g. normalised) *)
 Theorem C14_source_wiring : source_wiring_ok = true.
 Proof. exact wiring_ok. Qed.
 Print Assumptions C14_source_wiring.
